@@ -60,7 +60,7 @@ def cases(draw, allow_outside=True):
         if kind == "add_array":
             ops.append({"op": kind, "dtype": draw(st.sampled_from(["float64", "float64", "float32", "float16"])),
                         "kind": draw(st.sampled_from(["zero", "uniform", "sparse", "random"])),
-                        "level": draw(st.integers(0, 2000)), "seed": draw(st.integers(0, 10**6))})
+                        "level": draw(st.integers(0, 2000)), "seed": draw(st.integers(0, 10**6)), "reuse": draw(st.sampled_from([False, False, True]))})
         elif kind == "add_clusters":
             n = draw(st.integers(1, 5))
             cl = []
@@ -170,7 +170,8 @@ def run_ops(case, rec):
     ch = det.charge
     acc = np.zeros((rows, cols))  # array-mode accumulator
     clusters = None  # None = array mode; else list of [label, number, row|None, col|None]
-    seen = {"array_add": False, "cluster_add": False, "read_between": False, "special": False, "object_columns": False, "restored": False, "resized": False}
+    held_arr = held_copy = None
+    seen = {"reused_object": False, "array_add": False, "cluster_add": False, "read_between": False, "special": False, "object_columns": False, "restored": False, "resized": False}
 
     def expected():
         if clusters is None:
@@ -199,11 +200,18 @@ def run_ops(case, rec):
         try:
             if o == "add_array":
                 a = _array(op, rows, cols)
-                ch.add_charge_array(a)
-                if clusters is None:
-                    acc = acc + a.astype(float)
+                if op.get("reuse") and held_arr is not None and held_arr.shape == (rows, cols):
+                    a = held_arr  # the caller adds the very same array object again (a pre-computed frame)
+                    seen["reused_object"] = True
                 else:
-                    clusters.extend(to_clusters_from_array(a))
+                    held_arr, held_copy = a, a.copy()
+                ch.add_charge_array(a)
+                a0 = held_copy if a is held_arr else a  # what the caller's array held when it was built
+                rec.check(bool(np.array_equal(held_arr, held_copy)), "callers_array_modified", f"{where}: the array handed to add_charge_array now holds {held_arr.ravel()[:3]}, it held {held_copy.ravel()[:3]}")
+                if clusters is None:
+                    acc = acc + a0.astype(float)
+                else:
+                    clusters.extend(to_clusters_from_array(a0))
                     relabel(clusters)
                 seen["array_add"] = True
             elif o == "resize":
